@@ -23,8 +23,16 @@ def run(ctx, prog):
         ctx.require(len(rq) == 1, 'MasterMS<%s> not found' % scalar)
         rq = rq[0]
         meths = {f.n: f for f in prog.methods_of(rq)}
-        for need in ('init_mms', 'select_mms', 'list_mms'):
-            ctx.require(need in meths, '%s::%s not found' % (rq, need))
+        # a registry method that is never instantiated means no API function of this precision reaches it
+        missing = [need for need in ('init_mms', 'select_mms', 'list_mms') if need not in meths]
+        for need in missing:
+            users = [f.n for f in prog.functions if f.q.startswith('MASA::') and not f.get('rec') and f.scalar == scalar and
+                     any(c.get('n') == need and not c.get('q', '').endswith('MasterMS<%s>::%s' % (scalar, need)) for c in calls(f.body))]
+            ctx.ob('C12.H4', 'registry-method-instantiated|%s|%s' % (need, sc), False, prog.records[rq]['l'],
+                   'MasterMS<%s>::%s is never instantiated: no %s API function operates on the %s registry (%s call another precision\'s registry)' % (
+                       scalar, need, scalar, scalar, users or 'its callers'))
+        if missing:
+            continue
         # ---- H1
         writers = {'_master_map': set(), '_master_pointer': set()}
         for f in prog.functions:
